@@ -21,6 +21,9 @@ EXPLANATION = (
     " name is shown as <io>."
     " Added in rounds 8 and 9: (O4.9) covered cells and row containers keep the items of a row in place (C15's"
     " table)."
+    " Added in round 10: (O4.1) a row with surplus items is too long also when the surplus items are empty;"
+    " number items are no texts; the checks get the cells, not the typed values the fields return. (O17.4,"
+    " shared with C17) a field judges the same text cell alike under every Format."
 )
 ASSUMPTIONS = ["field.validated and check.check_row behave as decided under C02/C03/C05; raw readers deliver the file's rows (C12-C16)"]
 
